@@ -16,6 +16,7 @@
 -/
 import XMT.GroupLemmas
 import XMT.ClientLoopSwitch
+import XMT.HostBox
 namespace XMT.Props.C17
 open XMT XMT.Group
 
@@ -346,5 +347,30 @@ theorem listen_reports_failures (c : Client.Cfg) (q : Nat → Nat) (script : Nat
 -- concrete: exchange fails, connect fails, exchange succeeds, … : reports false, true, true, false
 example : (Client.run { sleep := 1000000, jitter := 0, kill := none, work := none, off := 0 } (fun _ => 0)
     (fun k => [Client.Res.sessErr, .fail, .ok, .ok].getD k .fail) 4 { now := 0 }).sw = [false, true, true, false] := by decide
+
+/-! ### the host container of the `ews && implant` build (c2/x_ews.go; model XMT/HostBox.lean,
+tied to the real file by the differential group `ews`: the harness mounts a copy of the CURRENT
+c2/x_ews.go into its own package and drives it with the same Set/Wrap/Unwrap sequences) -/
+
+/-- Whatever the container held before (any length, wrapped or not), after `Set(h)` it hands out
+exactly `h`: "the host handed out always belongs to the active group" does not depend on the hosts
+of earlier groups being shorter or longer. -/
+theorem hostbox_set_hands_out (c : HostBox.Box) (h : Bytes) : HostBox.string (HostBox.set c h) = h :=
+  HostBox.set_string c h
+
+/-- Over any number of turns of the connection loop (Unwrap, Set on a switch, Connect with String(),
+Wrap with 16 fresh PRNG bytes), for all hosts and all PRNG draws, the host given to the connector in
+every turn is the host of the last switch (the one set before the loop when there was none). -/
+theorem hostbox_loop_hands_out_active (c : HostBox.Box) (cur : Bytes) (ts : List HostBox.Turn)
+    (hinv : HostBox.string (HostBox.unwrap c) = cur) (hk : c.k ≠ [])
+    (hd : ∀ t ∈ ts, t.draws ≠ []) :
+    HostBox.observed c ts = HostBox.expected cur ts :=
+  HostBox.observed_eq c cur ts hinv hk hd
+
+-- non-vacuous: long host, then a shorter one, then a longer one again (shrink-then-grow), wrapped between
+example : HostBox.observed (HostBox.set HostBox.empty [1,2,3,4,5,6])
+    [⟨none, List.replicate 16 7⟩, ⟨some [9,9], List.replicate 16 0⟩, ⟨some [1,2,3,4], List.replicate 16 200⟩, ⟨none, List.replicate 16 3⟩]
+    = [[1,2,3,4,5,6], [9,9], [1,2,3,4], [1,2,3,4]] := by decide
+example : HostBox.string (HostBox.unwrap (HostBox.set HostBox.empty [1,2,3])) = [1,2,3] ∧ (HostBox.set HostBox.empty [1,2,3]).k ≠ [] := by decide
 
 end XMT.Props.C17
